@@ -76,6 +76,18 @@ def run(ctx):
             ctx.fail("two renderings of one type structure (%s) are not given the same shape" % mode, l1,
                      {"text_a": a[:300], "text_b": b[:300], "result_a": x[:200], "result_b": y[:200], "other_case": l2},
                      known=known)
+    # member names and strings re-spelled with escapes (\\uXXXX in either case, surrogate pairs, two-character
+    # escapes): two spellings of one document must be given the same shape
+    n_sp = 0
+    for d in vlib.key_docs():
+        texts = [vlib.render_text(ctx.rng, d)] + [vlib.render_text(ctx.rng, d, keyf=lambda k: vlib.respell(ctx.rng, k)) for _ in range(4)]
+        rs = ctx.impl(["from_str\t" + hx(t) for t in texts])
+        n_sp += len(texts) - 1
+        for t, r in zip(texts[1:], rs[1:]):
+            if r != rs[0] or not r.startswith("OK "):
+                ctx.fail("two spellings of one document (member names written with / without escapes) are not given the same shape",
+                         "from_str\t" + hx(t), {"text_a": texts[0][:300], "text_b": t[:300], "result_a": rs[0][:200], "result_b": r[:200]})
+    ctx.notes["respelled_name_pairs"] = n_sp
     # very long homogeneous arrays / wide objects: the repetition count must not matter at any scale
     big = []
     for n in (2, 1000, 40000, 70000):
